@@ -4,6 +4,7 @@
 #define STD_API_H
 int __g2c_nondet_int(void);
 _Bool __g2c_nondet_bool(void);
+unsigned long __g2c_nondet_ulong(void);
 struct std_string; struct vec_char;
 /* int std::string::compare(const std::string&) const : pure */
 int _ZNKSt7__cxx1112basic_stringIcSt11char_traitsIcESaIcEE7compareERKS4_(const struct std_string *this, const struct std_string *s)
@@ -22,6 +23,14 @@ _Bool _ZStneIcSaIcEEbRKSt6vectorIT_T0_ES6_(const struct vec_char *a, const struc
 {
   __CPROVER_assert(__CPROVER_r_ok(a, 24) && __CPROVER_r_ok(b, 24), "operator!=(vector<char>): both vectors are live objects");
   return __g2c_nondet_bool();
+}
+/* std::string& std::string::append(const std::string&) : mutates *this (modelled as: its bytes change), returns *this */
+struct std_string *_ZNSt7__cxx1112basic_stringIcSt11char_traitsIcESaIcEE6appendERKS4_(struct std_string *this, const struct std_string *s)
+{
+  __CPROVER_assert(__CPROVER_rw_ok(this, 32) && __CPROVER_r_ok(s, 32), "std::string::append: both strings are live objects");
+  unsigned long *w = (unsigned long *)this;
+  w[0] = __g2c_nondet_ulong(); w[1] = __g2c_nondet_ulong(); w[2] = __g2c_nondet_ulong(); w[3] = __g2c_nondet_ulong();
+  return this;
 }
 /* std::vector<bloc::Expression*>::vector() : an empty vector */
 struct vec_ExpressionPtr;
